@@ -316,7 +316,9 @@ class R:
                 for mm in members:
                     out.append({"member": mm, "required": False, "emptyText": mode, "decStrip": st, "mixin": mx, "ctor": ctor})
                 continue
-            if fshort in INLINE and n.args and src(n.args[0]) == elem:
+            if n.args and src(n.args[0]) == elem and fshort != name and fshort not in READ_FUNCS and fshort not in FIND_WRAPPERS \
+                    and (fshort in INLINE or (fshort.startswith("_") and fshort != "_amend_abstract_attributes"
+                                              and fshort in self.methods)):
                 st, mx = conds(n)
                 for r in self.reads(fshort, "element", depth + 1):
                     if "include" in r:
@@ -513,7 +515,8 @@ def build(repo: str) -> Dict[str, Any]:
             if member == "kind" and cls == "Submodel":
                 dflt = "tok:" + enums["MODELLING_KIND"]["INSTANCE"]
             rows_out.append({
-                "member": member, "attr": attr, "guard": guard, "encStrip": False,
+                # there is no stripped XML writer; the notional one strips what the stripped reader ignores
+                "member": member, "attr": attr, "guard": guard, "encStrip": bool(rr and rr["decStrip"]),
                 "decReads": dec_reads, "decRequired": bool(rr and rr["required"]), "decStrip": bool(rr and rr["decStrip"]),
                 "kind": kind, "optional": opt, "noFalsy": nofalsy, "enumVals": ev, "dflt": dflt,
                 "emptyText": empty, "canBeEmpty": J.can_be_empty(sk) if cls != "OperationVariable" else False,
@@ -531,14 +534,50 @@ def build(repo: str) -> Dict[str, Any]:
         table.append({"cls": cls, "tag": tag, "rows": rows_out, "readerOnlyMembers": extra})
     # reader dispatch (tag -> class)
     rdispatch = {t: ctor_cls.get(m, m) for t, m in dispatch.items()}
+    # single-object API: first-match isinstance chain of object_to_xml_element, and read_aas_xml_element's table
+    wdispatch: List[Tuple[str, str]] = []
+    fn = w.funcs["object_to_xml_element"]
+    for n in ast.walk(fn):
+        if isinstance(n, ast.If):
+            m = re.fullmatch(r"isinstance\(obj, model\.(\w+)\)", src(n.test))
+            if m and n.body and isinstance(n.body[0], ast.Assign):
+                wdispatch.append((m.group(1), src(n.body[0].value)))
+    seen_t = set()
+    wdispatch_first = [(t, f) for t, f in wdispatch if not (t in seen_t or seen_t.add(t))]
+    constructables: Dict[str, str] = {}
+    rfn = next(n for n in r.mod.body if isinstance(n, ast.FunctionDef) and n.name == "read_aas_xml_element")
+    for n in ast.walk(rfn):
+        if isinstance(n, ast.If):
+            m = re.fullmatch(r"construct == XMLConstructables\.(\w+)", src(n.test))
+            if m and n.body and isinstance(n.body[0], ast.Assign):
+                constructables[m.group(1)] = src(n.body[0].value).replace("decoder_.", "")
+    enum_members = []
+    for n in r.mod.body:
+        if isinstance(n, ast.ClassDef) and n.name == "XMLConstructables":
+            enum_members = [t.targets[0].id for t in n.body if isinstance(t, ast.Assign)]
+    anc = {c: sorted(J.ancestors(graph, c)) for c in WRITER_FUNC if c in graph}
     return {"table": table, "enums": enums, "xsdNames": J.xsd_names(repo), "unrecognised": w.unrec + r.unrec, "problems": problems,
-            "catch": r.catch, "readerDispatch": rdispatch, "lssWriter": lss_writer, "lssReader": lss_reader}
+            "catch": r.catch, "readerDispatch": rdispatch, "lssWriter": lss_writer, "lssReader": lss_reader,
+            "writerDispatch": wdispatch_first, "constructables": constructables, "constructableMembers": enum_members,
+            "ancestors": anc, "writerFunc": {c: f for c, f in WRITER_FUNC.items() if c in graph},
+            "readerFunc": {c: f for c, f in READER_FUNC.items() if c in graph}}
 
 
 def emit_lean(data: Dict[str, Any]) -> str:
     txt = J.emit_lean(data, name="xmlTable", namespace="Basyx.Gen.Xml")
     extra = ["/-- tag -> class dispatch of the XML reader (construct_submodel_element / construct_data_element / …) -/",
              "def readerDispatch : List (String × String) := [" + ", ".join(f"({J.lstr(t)}, {J.lstr(c)})" for t, c in sorted(data["readerDispatch"].items())) + "]",
+             "", "/-- object_to_xml_element: first-match isinstance chain (type, serialiser) -/",
+             "def writerDispatch : List (String × String) := [" + ", ".join(f"({J.lstr(t)}, {J.lstr(f)})" for t, f in data["writerDispatch"]) + "]",
+             "", "/-- read_aas_xml_element: XMLConstructables member -> constructor -/",
+             "def constructables : List (String × String) := [" + ", ".join(f"({J.lstr(t)}, {J.lstr(f)})" for t, f in sorted(data["constructables"].items())) + "]",
+             "def constructableMembers : List String := [" + ", ".join(J.lstr(t) for t in data["constructableMembers"]) + "]",
+             "", "/-- class graph of model/*.py: class -> itself and all its ancestors -/",
+             "def ancestors : List (String × List String) := [" + ", ".join(
+                 f"({J.lstr(c)}, [" + ", ".join(J.lstr(a) for a in anc) + "])" for c, anc in sorted(data["ancestors"].items())) + "]",
+             "", "/-- the serialiser / constructor that belongs to each concrete class -/",
+             "def writerFunc : List (String × String) := [" + ", ".join(f"({J.lstr(c)}, {J.lstr(f)})" for c, f in sorted(data["writerFunc"].items())) + "]",
+             "def readerFunc : List (String × String) := [" + ", ".join(f"({J.lstr(c)}, {J.lstr(f)})" for c, f in sorted(data["readerFunc"].items())) + "]",
              "", "/-- table problems found while merging writer and reader (informational; each also shows as a failing row) -/",
              "def problems : List String := [" + ", ".join(J.lstr(p) for p in data["problems"]) + "]", ""]
     return txt.replace("end Basyx.Gen.Xml", "\n".join(extra) + "end Basyx.Gen.Xml")
